@@ -239,18 +239,23 @@ pub fn gen_graph(p: &GraphParams, rng: &mut Rng) -> GraphSpec {
                 Wrap::None
             } else {
                 match kind {
-                    LoadKind::Import => {
-                        if rng.chance(1, 4) {
-                            Wrap::Rule
-                        } else {
-                            Wrap::None
-                        }
-                    }
-                    LoadKind::LoadCss => *rng.pick(&[Wrap::None, Wrap::Rule, Wrap::If, Wrap::Mixin, Wrap::Each]),
+                    LoadKind::Import => match rng.below(8) {
+                        0 | 1 => Wrap::Rule,
+                        2 => Wrap::Media,
+                        _ => Wrap::None,
+                    },
+                    LoadKind::LoadCss => *rng.pick(&[Wrap::None, Wrap::Rule, Wrap::If, Wrap::Mixin, Wrap::Each, Wrap::Media]),
                     _ => Wrap::None,
                 }
             };
-            stmts.push(Stmt::Load { kind, url, target: j, wrap, ns: format!("n{k}") });
+            // configure the target only if this is the only load of it anywhere (a module may be configured once)
+            let incoming: usize = edges.iter().map(|es| es.iter().filter(|(t, _)| *t == j).count()).sum();
+            let with_cfg = !p.c03
+                && incoming == 1
+                && kind != LoadKind::Import
+                && !paths[j].ends_with(".css")
+                && rng.chance(1, 3);
+            stmts.push(Stmt::Load { kind, url, target: j, wrap, ns: format!("n{k}"), with_cfg });
         }
         let pos = rng.usize(stmts.len() + 1);
         stmts.insert(pos, if p.c03 { Stmt::ModuleVars } else { Stmt::Marker });
